@@ -705,10 +705,15 @@ type vfSeqGen struct {
 	next   uint64 // state machine's applied index, only grows
 	ops    []vfSOp
 	hadMid bool
+	salt   uint64
 }
 
-func (g *vfSeqGen) size() int {
-	return rapid.SampledFrom([]int{1, 40, 700, 3000}).Draw(g.t, "size")
+// size of the state image at an index: a function of the index only (the
+// state at one log index is the same wherever the image is produced), varied
+// per case through a drawn salt.
+func (g *vfSeqGen) size(index uint64) int {
+	tbl := []int{1, 40, 40, 700, 3000}
+	return tbl[(index+g.salt)%uint64(len(tbl))]
 }
 
 // recvIndex: the leader's snapshot is at, just above or well above what this
@@ -788,7 +793,7 @@ func (g *vfSeqGen) draw(nested bool) vfSOp {
 			g.next = c + 1 // lastApplied is above the snapshot the replica was restored from
 		}
 		op.Index = g.next
-		op.Size = g.size()
+		op.Size = g.size(op.Index)
 		n := rapid.SampledFrom([]int{0, 0, 1, 2, 3}).Draw(g.t, "mid")
 		if n > 0 {
 			g.hadMid = true
@@ -801,7 +806,7 @@ func (g *vfSeqGen) draw(nested bool) vfSOp {
 	case "recvbegin":
 		op.Index = g.recvIndex()
 		op.From = 2
-		op.Size = g.size()
+		op.Size = g.size(op.Index)
 	case "shrink":
 		op.Index = g.r.curIndex()
 	}
@@ -976,6 +981,23 @@ func (r *vfReplica) startup(acked uint64, crashAt int) (fail *vfFailure) {
 		return vfFailf("c16-recorded-snapshot-missing",
 			"snapshot %d is recorded in the log store but %s does not exist: %v (before cleanup %v, after %v)",
 			rec.Index, fp, err, before, after)
+	}
+	if rec.FileSize > 0 {
+		// locally generated: snapshotter.Commit wrote snapshot.metadata into the
+		// directory before publishing it (tools.ImportSnapshot / export read it);
+		// a complete snapshot directory has it, intact
+		var md pb.Snapshot
+		mdir := r.ss.getEnv(rec.Index)
+		if !fileutil.HasFlagFile(mdir.GetFinalDir(), server.MetadataFilename, r.fs) {
+			return vfFailf("c16-recorded-snapshot-incomplete", "%s of recorded snapshot %d is missing (after %v)",
+				server.MetadataFilename, rec.Index, after)
+		}
+		if err := fileutil.GetFlagFileContent(mdir.GetFinalDir(), server.MetadataFilename, &md, r.fs); err != nil {
+			return vfFailf("c16-recorded-snapshot-incomplete", "metadata of %d unreadable: %v", rec.Index, err)
+		}
+		if md.Index != rec.Index {
+			return vfFailf("c16-recorded-snapshot-incomplete", "metadata says index %d, record %d", md.Index, rec.Index)
+		}
 	}
 	shrunk, err := rsm.IsShrunkSnapshotFile(fp, r.fs)
 	if err != nil {
@@ -1161,18 +1183,19 @@ func TestVF_C16_SnapshotDirCrash(t *testing.T) {
 	defer st.Flush()
 	exhaustive := vfhelp.Thorough()
 	st.Set("exhaustive", exhaustive)
-	maxOps := 9
+	maxOps := 7
 	if exhaustive {
-		maxOps = 12
+		maxOps = 10
 	}
 	totalPoints, totalOps, totalDouble := 0, 0, 0
 	rapid.Check(t, func(t *rapid.T) {
 		onDisk := rapid.Bool().Draw(t, "onDisk")
-		nops := rapid.IntRange(3, maxOps).Draw(t, "nops")
+		nops := rapid.IntRange(2, maxOps).Draw(t, "nops")
+		scenario := rapid.IntRange(0, 3).Draw(t, "scenario")
 		// phase 1: draw + execute without crash, recording the operations
 		r := newVFReplica(onDisk)
 		r.fs.record = true
-		g := &vfSeqGen{t: t, r: r}
+		g := &vfSeqGen{t: t, r: r, salt: uint64(rapid.IntRange(0, 4).Draw(t, "sizeSalt"))}
 		var ops []vfSOp
 		func() {
 			defer func() {
@@ -1180,6 +1203,25 @@ func TestVF_C16_SnapshotDirCrash(t *testing.T) {
 					vfhelp.Fail(t, "c16-panic-in-normal-operation", "sequence %v: %v\n%s", ops, x, debug.Stack())
 				}
 			}()
+			// an optional scripted prefix brings the replica quickly into a
+			// state with history (its operations are crash points like any other)
+			var prefix []vfSOp
+			switch scenario {
+			case 1: // a locally generated snapshot is current
+				prefix = []vfSOp{{Kind: "save", Index: 2, Size: g.size(2)}, {Kind: "commit"}}
+				g.next = 2
+			case 2: // a received snapshot is current
+				prefix = []vfSOp{{Kind: "recvbegin", Index: 3, From: 2, Size: g.size(3)}, {Kind: "recvend"}, {Kind: "install"}}
+				g.next = 3
+			case 3: // local snapshot replaced by a received one
+				prefix = []vfSOp{{Kind: "save", Index: 2, Size: g.size(2)}, {Kind: "commit"},
+					{Kind: "recvbegin", Index: 5, From: 2, Size: g.size(5)}, {Kind: "recvend"}, {Kind: "install"}}
+				g.next = 5
+			}
+			for _, op := range prefix {
+				r.exec(op)
+				ops = append(ops, op)
+			}
 			for i := 0; i < nops; i++ {
 				ops = append(ops, g.run())
 			}
@@ -1233,6 +1275,7 @@ func TestVF_C16_SnapshotDirCrash(t *testing.T) {
 			if hasRecvDuringSave {
 				classes = append(classes, "seq:receive-during-local-save")
 			}
+			classes = append(classes, fmt.Sprintf("scenario:%d", scenario))
 			if onDisk {
 				classes = append(classes, "sm:on-disk")
 			} else {
